@@ -97,10 +97,12 @@ func (c *Compiler) validateGrouping(
 		if err != nil {
 			c.error(u, err)
 		}
-		if m != mod {
+		if c.owningModule(m) != c.owningModule(mod) {
 			// Not a local grouping so ignore it. We only have to check for
-			// cycles within this module because a cross-module cycle is
-			// prevented by protecting against import cycles.
+			// cycles within this module (its submodules included: there
+			// the belongs-to prefix designates the module) because a
+			// cross-module cycle is prevented by protecting against import
+			// cycles.
 			continue
 		}
 
